@@ -621,6 +621,48 @@ def check_olpc(ctx, chains, rule_net, rule_ctx):
                     detail.append(t["at"])
             ctx.inst(rule_net, "un-escaper %s copies an input character verbatim only if it is not a backslash (%s)" % (path, key.split(" in ")[0]), okraw and n_input >= 1,
                      "verbatim copies of the scanned character not dominated by `c != '\\\\'`: %s" % detail, g["at"])
+            # a backslash is written only to re-escape a decoded quote / backslash: with every edge removed on which a *decoded*
+            # character (not the scanned input character) is known to be `"` or `\`, no write of a backslash is reachable
+            hdrs = [x for x in gb.loops() if False]
+            scan_calls = set()
+            for lp in gb.loops().values():
+                for x in lp:
+                    tt = gb.blocks[x]["term"]
+                    if tt and tt["k"] == "call" and callee_name(tt) == "std::iter::Iterator::next" and \
+                            all(gb.dom_plain(x, e2[0]) for (e2, tb2) in gb.back_edges() if tb2 in lp and gb.loop_blocks(tb2) == lp):
+                        scan_calls.add(x)
+            dec_edges = set()
+            n_scan_tests = 0
+            for (e, tb, fa) in gb.all_edge_facts():
+                cm = as_cmp(fa)
+                if not (cm and cm[0] == "Eq"):
+                    continue
+                for (u, v) in ((cm[1], cm[2]), (cm[2], cm[1])):
+                    cc = op_const(v)
+                    if cc and cc.get("int") in (34, 92) and op_const(u) is None:
+                        lv = gb.trace(u, (), lambda tt: callee_name(tt) == "std::iter::Iterator::next")
+                        scanned = bool(lv) and all(l.kind == "call" and l.data[0] in scan_calls and l.path == (SOME, F0) for l in lv)
+                        if scanned:
+                            n_scan_tests += 1
+                        else:
+                            dec_edges.add(e)
+            def has_bs(op):
+                c = op_const(op)
+                if c is None:
+                    # a value that is a backslash (or contains one) whatever path was taken; the decoded character itself, which
+                    # may happen to be a backslash, is the raw write examined above
+                    lv = gb.trace(op)
+                    return bool(lv) and all(l.kind == "const" and (("str" in l.data and "\\" in l.data["str"]) or l.data.get("int") == 92) for l in lv)
+                return ("str" in c and "\\" in c["str"]) or (c.get("ty") == "char" and c.get("int") == 92)
+            bs_sites = [(i, t) for (i, t) in gb.calls_named("std::string::String::push", "std::string::String::push_str", "std::string::String::insert",
+                                                          "std::string::String::insert_str", "std::iter::Extend::extend")
+                        if len(t["args"]) >= 2 and has_bs(t["args"][-1])]
+            r = gb.reach_between(0, removed_edges=dec_edges)
+            stray = [t["at"] for (i, t) in bs_sites if i in r]
+            ctx.inst(rule_net, "un-escaper %s writes a backslash only to re-escape a decoded quote or backslash (%s)" % (path, key.split(" in ")[0]),
+                     bool(bs_sites) and not stray and n_scan_tests >= 1,
+                     "%d write(s) of a backslash; reachable without a `decoded == quote / backslash` edge: %s (the scanner's own `input == backslash` "
+                     "test, recognised %d time(s), is not such an edge)" % (len(bs_sites), stray, n_scan_tests), g["at"])
             # context sensitivity: the un-escaper consumes the text sequentially (one loop driven by chars().next())
             loops = gb.loops()
             seq = any(gb.blocks[h]["term"] and callee_name(gb.blocks[h]["term"]) == "std::iter::Iterator::next" for h in loops) or \
